@@ -38,6 +38,27 @@ OPS = [
 ]
 
 
+# second operator set (--ops 2): arithmetic, constants, deleted statements
+OPS2 = [
+    (r" \+ ", " - "), (r" - ", " + "), (r" \+= ", " -= "), (r" -= ", " += "),
+    (r"\b0\b", "1"), (r"\b1\b", "0"), (r"\b1\b", "2"),
+    (r"\.unwrap_or\(0\)", ".unwrap_or(1)"),
+    (r"Some\((\w+)\)(?= =>)", r"Some(\1) if false"),
+    (r"\.first\(\)", ".last()"), (r"\.last\(\)", ".first()"),
+    (r"\.any\(", ".all("), (r"\.all\(", ".any("),
+    (r"\.find\(", ".rfind("),
+    (r"\.min\(([^()]*)\)", r""), (r"\.max\(([^()]*)\)", r""),
+    (r"\.map\(\|v\| v \+ 1\)", ""),
+    (r"' '", "'\\t'"), (r"b' '", "b'_'"), (r"b'\\n'", "b'\\r'"), (r"'\\n'", "'\\r'"),
+    (r"\.strip_prefix\(", ".strip_suffix("), (r"\.strip_suffix\(", ".strip_prefix("),
+    (r"\.trim_start_matches\(", ".trim_end_matches("),
+    (r"\.starts_with\(", ".ends_with("),
+    (r"^(\s*)(\w[\w.]*\.(?:push|push_str|extend|insert)\(.*\);)\s*$", r"\1// \2"),
+    (r"^(\s*)(\w[\w.\[\]]* (?:\+|-)?= .*;)\s*$", r"\1// \2"),
+    (r"^(\s*)(continue;|break;)\s*$", r"\1// \2"),
+]
+
+
 def source_files(repo):
     out = []
     for root in ("chiritori/src", "chiritori-cli/src"):
@@ -48,7 +69,8 @@ def source_files(repo):
     return sorted(out)
 
 
-def enumerate_mutants(repo, only=None):
+def enumerate_mutants(repo, only=None, ops=None):
+    ops = ops or OPS
     muts = []
     for rel in source_files(repo):
         if only and only not in rel:
@@ -65,15 +87,30 @@ def enumerate_mutants(repo, only=None):
             if not s or s.startswith("//") or s.startswith("#[") or s.startswith("use ") or "///" in line:
                 continue
             code = line.split("//")[0]
-            for pat, rep in OPS:
+            for pat, rep in ops:
                 for k, m in enumerate(re.finditer(pat, code)):
                     # skip generics / lifetimes / arrows
                     seg = code[max(0, m.start() - 2):m.end() + 2]
                     if "->" in seg or "=>" in seg or "<'" in seg or "::<" in seg:
                         continue
-                    new = code[:m.start()] + rep + code[m.end():] + line[len(code):]
+                    new = code[:m.start()] + m.expand(rep) + code[m.end():] + line[len(code):]
                     muts.append({"file": rel, "line": i + 1, "op": "%s -> %s" % (pat, rep), "occ": k, "orig": line, "new": new})
     return muts
+
+
+def _run_tests(repo, env, timeout=300):
+    """The suite in its own process group, with an address-space limit: a mutant that loops or allocates without bound
+    is killed as a group (the test binary is a grandchild of the shell) instead of being left behind."""
+    import signal
+    p = subprocess.Popen("ulimit -v 8000000; cargo test --workspace --offline -q 2>&1 | tail -40", shell=True, cwd=repo, env=env,
+                         stdout=subprocess.PIPE, text=True, start_new_session=True)
+    try:
+        out, _ = p.communicate(timeout=timeout)
+        return out
+    except subprocess.TimeoutExpired:
+        os.killpg(p.pid, signal.SIGKILL)
+        p.communicate()
+        raise
 
 
 def worker(args):
@@ -98,8 +135,7 @@ def worker(args):
                 f.write("\n".join(lines))
             rec = dict(mu)
             try:
-                r = subprocess.run("cargo test --workspace --offline -q 2>&1 | tail -40", shell=True, cwd=repo, env=env, stdout=subprocess.PIPE, text=True, timeout=300)
-                out = r.stdout
+                out = _run_tests(repo, env)
                 if "error[" in out or "error:" in out and "test result" not in out:
                     rec["tests"] = "no-compile"
                 elif "FAILED" in out or "panicked" in out or "test result: FAILED" in out:
@@ -119,7 +155,7 @@ def worker(args):
                         fired = {"_extract": [str(e)[-120:]]}
                     rec["fired"] = fired
             except subprocess.TimeoutExpired:
-                rec["tests"] = "timeout"
+                rec["tests"] = "timeout"       # a mutant that loops forever (or allocates without bound) counts as killed
             finally:
                 with open(p, "w") as f:
                     f.write(orig)
@@ -181,8 +217,9 @@ def main():
     ap.add_argument("--only")
     ap.add_argument("--out", default="/tmp/mutation_sweep.jsonl")
     ap.add_argument("--limit", type=int)
+    ap.add_argument("--ops", type=int, default=1)
     a = ap.parse_args()
-    muts = enumerate_mutants("/repo", a.only)
+    muts = enumerate_mutants("/repo", a.only, OPS if a.ops == 1 else OPS2)
     if a.limit:
         muts = muts[:a.limit]
     print(len(muts), "mutants")
